@@ -294,7 +294,8 @@ Record disk := {
   vers : list (N * N);                 (* file id |-> version of the file on disk (stands for its size+mtime) *)
   clock : N;                           (* next version number                                             *)
   nowrite : list N;                    (* files whose directory does not exist (a write raises ENOENT)    *)
-  ferr : bool                          (* the last _flush_buffer collected issues (raises BufferedError)   *)
+  ferr : bool;                         (* the last _flush_buffer collected issues (raises BufferedError)   *)
+  oerr : bool                          (* an unbuffered save hit a missing directory (raises OSError)      *)
 }.
 
 Record cstate := {
@@ -322,18 +323,21 @@ Definition with_depth st x := {| files := files st; mems := mems st; buf := buf 
 
 Definition with_dk st x := {| files := files st; mems := mems st; buf := buf st; reg := reg st; cap := cap st; caps := caps st; depth := depth st; dk := x |}.
 Definition with_ferr st (b : bool) :=
-  with_dk st {| vers := vers (dk st); clock := clock (dk st); nowrite := nowrite (dk st); ferr := b |}.
+  with_dk st {| vers := vers (dk st); clock := clock (dk st); nowrite := nowrite (dk st); ferr := b; oerr := oerr (dk st) |}.
 Definition ferr_of (st : cstate) : bool := ferr (dk st).
 Definition with_nowrite st (l : list N) :=
-  with_dk st {| vers := vers (dk st); clock := clock (dk st); nowrite := l; ferr := ferr (dk st) |}.
+  with_dk st {| vers := vers (dk st); clock := clock (dk st); nowrite := l; ferr := ferr (dk st); oerr := oerr (dk st) |}.
 Definition with_vers st (v : list (N * N)) :=
-  with_dk st {| vers := v; clock := clock (dk st); nowrite := nowrite (dk st); ferr := ferr (dk st) |}.
+  with_dk st {| vers := v; clock := clock (dk st); nowrite := nowrite (dk st); ferr := ferr (dk st); oerr := oerr (dk st) |}.
 
 (* the file is (re)written: new contents, new version *)
 Definition write_file st (f : N) (m : json) :=
   with_dk (with_files st (nset f m (files st)))
     {| vers := nset f (clock (dk st)) (vers (dk st)); clock := N.succ (clock (dk st));
-       nowrite := nowrite (dk st); ferr := ferr (dk st) |}.
+       nowrite := nowrite (dk st); ferr := ferr (dk st); oerr := oerr (dk st) |}.
+Definition with_oerr st (b : bool) :=
+  with_dk st {| vers := vers (dk st); clock := clock (dk st); nowrite := nowrite (dk st); ferr := ferr (dk st); oerr := b |}.
+Definition oerr_of (st : cstate) : bool := oerr (dk st).
 
 Definition ometa_eqb (a b : option N) : bool :=
   match a, b with Some x, Some y => N.eqb x y | None, None => true | _, _ => false end.
@@ -432,7 +436,8 @@ Section Buffered.
 
   Definition save (st : cstate) (h f : N) (m : json) : cstate :=
     match depth st with
-    | O => write_file (set_mem st h f m) f m
+    | O => if nmem f (nowrite (dk st)) then with_oerr (set_mem st h f m) true      (* ENOENT: the directory is gone *)
+           else write_file (set_mem st h f m) f m
     | S _ => save_buffered st h f m
     end.
 
@@ -442,7 +447,7 @@ Section Buffered.
     | [] => (st, m, None)
     | e :: p' =>
         let '(st1, m1) := load st h f m in
-        if ferr_of st1 then (st1, m1, Some EOther) else
+        if ferr_of st1 then (st1, m1, Some ERuntimeError) else
         match get_at (pre ++ [e]) m1 with
         | Err x => (st1, m1, Some x)
         | Ok _ => walk st1 h f m1 (pre ++ [e]) p'
@@ -450,10 +455,12 @@ Section Buffered.
     end.
 
   (* one document operation through collection h: what SyncedDict/SyncedList methods do *)
-  Definition raised (st : cstate) (r : result json) : result json := if ferr_of st then Err EOther else r.
+  (* synced_collections.errors.BufferedError is a RuntimeError *)
+  Definition raised (st : cstate) (r : result json) : result json :=
+    if ferr_of st then Err ERuntimeError else if oerr_of st then Err EOSError else r.
 
   Definition cop (st00 : cstate) (h : N) (p : path) (o : dop) : cstate * result json :=
-    let st := with_ferr st00 false in
+    let st := with_oerr (with_ferr st00 false) false in
     match nlookup h (mems st) with
     | None => (st, Err EOther)
     | Some (f, m0) =>
@@ -461,7 +468,7 @@ Section Buffered.
         | (st0, _, Some e) => (st0, Err e)        (* raised by __getitem__ on the way: nothing is saved *)
         | (st0, m0', None) =>
             let '(st1, m1) := if op_loads o then load st0 h f m0' else (st0, m0') in
-            if ferr_of st1 then (st1, Err EOther) else
+            if ferr_of st1 then (st1, Err ERuntimeError) else
             match get_at p m1 with
             | Err e => (st1, Err e)
             | Ok t =>
@@ -507,7 +514,7 @@ Section Buffered.
         | S d =>
             let st1 := with_depth st d in
             let st2 := match d with O => flush_all st1 | S _ => with_ferr st1 false end in
-            if ferr_of st2 then (st2, Err EOther)      (* BufferedError out of __exit__: the capacity is not restored *)
+            if ferr_of st2 then (st2, Err ERuntimeError)      (* BufferedError out of __exit__: the capacity is not restored *)
             else
             match caps st2 with
             | Some c :: r => let st3 := set_capacity (with_caps st2 r) c in (st3, raised st3 (Ok JNull))
@@ -556,7 +563,7 @@ Section Buffered.
   (* the job directory disappears with everything in it / is (re)created *)
   Definition core_rmfile (c : cstate) (f : N) : cstate :=
     with_dk (with_files c (nremove f (files c)))
-      {| vers := nremove f (vers (dk c)); clock := clock (dk c); nowrite := f :: nowrite (dk c); ferr := ferr (dk c) |}.
+      {| vers := nremove f (vers (dk c)); clock := clock (dk c); nowrite := f :: nowrite (dk c); ferr := ferr (dk c); oerr := oerr (dk c) |}.
   Definition core_mkdir (c : cstate) (f : N) : cstate :=
     with_nowrite c (filter (fun x => negb (N.eqb x f)) (nowrite (dk c))).
   Definition move_key {A} (f f' : N) (l : list (N * A)) : list (N * A) :=
@@ -604,7 +611,7 @@ Section Buffered.
               let c := core js in
               let c' := with_dk (with_files c (move_key f f' (files c)))
                           {| vers := move_key f f' (vers (dk c)); clock := clock (dk c);
-                             nowrite := f :: filter (fun x => negb (N.eqb x f')) (nowrite (dk c)); ferr := ferr (dk c) |} in
+                             nowrite := f :: filter (fun x => negb (N.eqb x f')) (nowrite (dk c)); ferr := ferr (dk c); oerr := oerr (dk c) |} in
               ({| core := c';
                   dirs := add_dir (del_dir (dirs js) f) f';
                   jobs := nset j (f', None) (jobs js); nexth := nexth js |}, Ok JNull)
